@@ -307,7 +307,7 @@ def run_cases(cases):
                                   "impl": after[k], "input": lines[-8:]})
                     break
             cl = next((b for b in block if b.startswith("CALLS ")), "CALLS 0").split()[2:]
-            mine = [x for x in cl if x in {p[1] for p in c.patch}]
+            mine = cl if getattr(c, "all_calls", False) else [x for x in cl if x in {p[1] for p in c.patch}]
             if mine != calls:
                 diffs.append({"channel": ch, "what": "extern calls", "model": mine, "impl": calls, "input": lines[-8:]})
     return compared, diffs, dist
@@ -593,6 +593,8 @@ GENS = {"session": gen_session_cases, "order": gen_order_cases, "event": gen_eve
 def run(ctx, groups, n_each):
     """correspondence of the translated code with CPython for the given groups of functions"""
     cases = []
+    if "runner" in groups:
+        import py_runner_cases  # noqa: F401 - registers GENS["runner"]
     for g in groups:
         rng = ctx.rng("pycode", g)
         cases += list(GENS[g](rng, n_each))
